@@ -521,3 +521,66 @@ class Run:
 def scratch(prefix="cpf"):
     base = os.environ.get("CPF_SCRATCH", "/tmp")
     return tempfile.mkdtemp(prefix=prefix + "-", dir=base)
+
+
+def run_console(argv, payload, rng=None, chunks=None, timeout=120, env=None, pause=0.01):
+    """Drive an interactive process: write `payload` to its stdin (all at once, or in `chunks`-sized pieces with
+    small pauses) while its output is read concurrently, so that neither side can block the other for good.
+    Returns (output bytes, return code); the return code is None when the deadline passed (the process is killed)."""
+    import select, threading
+    p = subprocess.Popen(argv, stdin=subprocess.PIPE, stdout=subprocess.PIPE, stderr=subprocess.STDOUT, env=env)
+    buf = []
+
+    def reader():
+        while True:
+            b = p.stdout.read(65536)
+            if not b:
+                return
+            buf.append(b)
+    t = threading.Thread(target=reader, daemon=True)
+    t.start()
+    deadline = time.time() + timeout
+    fd = p.stdin.fileno()
+    os.set_blocking(fd, False)
+    i, hang = 0, False
+    while i < len(payload):
+        n = len(payload) - i if not chunks else rng.choice(chunks)
+        piece = payload[i:i + n]
+        while piece:
+            if time.time() > deadline:
+                hang = True
+                break
+            _, w, _ = select.select([], [fd], [], 0.5)
+            if not w:
+                if p.poll() is not None:
+                    piece = b""
+                    i = len(payload)
+                continue
+            try:
+                k = os.write(fd, piece)
+            except BlockingIOError:
+                continue
+            except (BrokenPipeError, OSError):
+                piece = b""
+                i = len(payload)
+                break
+            piece = piece[k:]
+            i += k
+        if hang:
+            break
+        if chunks and rng.random() < 0.2:
+            time.sleep(pause)
+    try:
+        p.stdin.close()
+    except Exception:
+        pass
+    if not hang:
+        try:
+            p.wait(timeout=max(1, deadline - time.time()))
+        except subprocess.TimeoutExpired:
+            hang = True
+    if hang:
+        p.kill()
+        p.wait()
+    t.join(timeout=10)
+    return b"".join(buf), (None if hang else p.returncode)
